@@ -28,6 +28,39 @@ from edgegraph.output import nrpickler
 LIST_MUTS = ["append", "insert", "remove_first", "clear", "sort", "reverse", "setitem", "delitem", "pop", "extend", "imul"]
 SET_MUTS = ["add", "discard_one", "clear", "pop"]
 DICT_MUTS = ["setitem", "pop_one", "clear", "update", "inner_setitem", "inner_clear"]
+# ... and, for what an accessor handed out, operators through which a read-only
+# wrapper passes the mapping it wraps to the other operand
+PROXY_MUTS = DICT_MUTS + ["reflected_eq", "reflected_or", "inner_reflected_eq", "inner_reflected_or"]
+
+
+class Grabber:
+    """
+    An operand whose reflected comparison / merge methods write into whatever
+    mapping they are handed (a read-only proxy hands over the dict it wraps).
+    """
+
+    __hash__ = None
+
+    def __init__(self, junk):
+        self.junk = junk
+        self.grabbed = 0
+
+    def _grab(self, other):
+        if isinstance(other, dict):
+            self.grabbed += 1
+            inner = next((v for v in other.values() if isinstance(v, dict)), None)
+            if inner is not None:
+                inner[C.SubVertex] = C.SubDirected
+            else:
+                other[C.SubVertex] = C.SubDirected
+
+    def __eq__(self, other):
+        self._grab(other)
+        return False
+
+    def __ror__(self, other):
+        self._grab(other)
+        return {}
 
 ACCESSORS = [
     ("links", "vu"),
@@ -130,6 +163,18 @@ def scribble(container, mut, junk):
                 getattr(container, {"insert": "insert"}.get(m, m))  # AttributeError
             container[0] = junk  # TypeError
             return "mutated"
+        if isinstance(container, types.MappingProxyType) and "reflected" in m:
+            target = container
+            if m.startswith("inner_"):
+                target = next(iter(container.values()), None)
+                if target is None:
+                    return "noop"
+            g = Grabber(junk)
+            if m.endswith("_eq"):
+                target == g  # pylint: disable=pointless-statement,expression-not-assigned
+            else:
+                target | g  # pylint: disable=pointless-statement,expression-not-assigned
+            return "mutated" if g.grabbed else "immutable"
         if isinstance(container, types.MappingProxyType):
             if m in ("inner_setitem", "inner_clear") and len(container):
                 inner = next(iter(container.values()))
@@ -598,7 +643,7 @@ class C12(c05.C05):
             cands = view.kind(ks)
             if cands:
                 src = {"op": "get", "obj": rng.choice(cands), "attr": attr}
-            kinds = DICT_MUTS if attr == "edge_whitelist" else LIST_MUTS
+            kinds = PROXY_MUTS if attr == "edge_whitelist" else LIST_MUTS
         elif r < 0.75:
             src = st.gen.g_find_links(rng, view, st.namer, focus=st.focus[-4:])
             if src is not None:
